@@ -80,7 +80,7 @@ _DECIDING = ["grid2d.array.container", "grid2d.array.pairing", "grid2d.grid.pair
              "transform.not_twice"]
 MIN_MONITORS = {"*": dict({k: 20 for k in _DECIDING}, **{"radial.plain_array_sequence": 20, "radial.callers_coordinates_untouched": 20,
                                                                       "grid1d.after_in_place_edit": 20, "kwargs.forwarded": 20, "transform.nested_once": 20,
-                                                                      "composite.container_mirrors_input": 20, "guarded.container_mirrors_input": 20})}
+                                                                      "composite.container_mirrors_input": 20, "guarded.container_mirrors_input": 20, "positional.forwarded": 20})}
 
 RADIAL_MIN = {"VerifC17Small": 1e-8, "VerifC17Mid": 0.3, "VerifC17Big": 2.5}
 
@@ -201,6 +201,19 @@ def make_profiles(aa):
             @dec.to_array
             def f_kw(self, grid, *args, scale=1.0, offset=0.0, **kwargs):
                 return scale * self.tags.t(self.see(grid)) + offset
+
+            # -- extra POSITIONAL parameters of the user function (profile.f(grid, 2.0)), for each of the three wrapping decorators
+            @dec.to_array
+            def f_pos_array(self, grid, scale, offset=0.0, *args, **kwargs):
+                return scale * self.tags.t(self.see(grid)) + offset
+
+            @dec.to_grid
+            def f_pos_grid(self, grid, scale, offset=0.0, *args, **kwargs):
+                return scale * self.tags.pair(self.see(grid)) + offset
+
+            @dec.to_vector_yx
+            def f_pos_vector(self, grid, scale, offset=0.0, *args, **kwargs):
+                return scale * self.tags.pair(self.see(grid)) + offset
 
             # -- a decorated function whose body calls another transform-decorated method and forwards its keyword arguments
             @dec.transform
@@ -486,6 +499,18 @@ def check_kwargs_and_nesting(ctx, p, grid, W, frame=None):
                       expected=exp, got=got, **W)
         else:
             ctx.check(False, "kwargs.forwarded", grid_type=type(grid).__name__, calls=len(log), **W)
+    for meth, val in (("f_pos_array", lambda g: p.tags.t(g)), ("f_pos_grid", lambda g: p.tags.pair(g)), ("f_pos_vector", lambda g: p.tags.pair(g))):
+        if meth == "f_pos_vector" and type(grid).__name__ == "Grid1D":
+            continue                      # vector fields on 1-D grids are not offered by the decorator (NotImplementedError by design)
+        for call_args in ((-2.5,), (-2.5, 0.75)):
+            ok, res, log = call_logged(ctx, p, "positional.forwarded", getattr(p, meth), grid, *call_args)
+            if ok and len(log) == 1:
+                exp = call_args[0] * val(log[0][1]) + (call_args[1] if len(call_args) > 1 else 0.0)
+                got = _np(res.slim) if hasattr(res, "slim") else _np(res)
+                ctx.check(got.shape == exp.shape and np.array_equal(got, exp), "positional.forwarded", method=meth, grid_type=type(grid).__name__,
+                          positional_arguments=list(call_args), expected=exp, got=got, **W)
+            elif ok:
+                ctx.check(False, "positional.forwarded", method=meth, grid_type=type(grid).__name__, calls=len(log), **W)
     if frame is None:
         return
     for how, kw in (("flag omitted", {}), ("is_transformed=False", {"is_transformed": False})):
@@ -529,11 +554,12 @@ def check_grid2d(ctx, i):
     mask = aa.Mask2D(mask=m.copy(), pixel_scales=scales, origin=origin)
     cen = ref.slim_centres(m, scales, origin)
     arbitrary = i % 4 == 3
+    scheme = aa.OverSamplingUniform(sub_size=int(r.integers(1, 4))) if i % 3 == 1 else None      # a grid that carries an over sampling scheme
     if arbitrary:           # a masked grid whose coordinates are not the pixel centres (e.g. a deflected grid)
         vals = cen + r.normal(size=cen.shape) * max(scales)
-        grid = aa.Grid2D(values=vals.copy(), mask=mask)
+        grid = aa.Grid2D(values=vals.copy(), mask=mask, over_sampling=scheme)
     else:
-        grid = aa.Grid2D.from_mask(mask=mask)
+        grid = aa.Grid2D.from_mask(mask=mask, over_sampling=scheme)
     gin = np.array(_np(grid.slim), dtype=float)
     # profile centre: at / next to a coordinate (inside the minimum), exactly on it (r == 0), or anywhere
     mode = (i // 3) % 4
@@ -583,11 +609,18 @@ def check_grid2d(ctx, i):
     if ok:
         ctx.check(unchanged(log), "grid2d.received_unchanged", method="f_grid", calls=[(t, a.shape) for (t, a) in log], **W)
         ctx.check(wrapped_2d(aa, res, aa.Grid2D, m, scales, origin, tp), "grid2d.grid.pairing", result_type=type(res).__name__, expected=tp, got=lambda: _np(res), **W)
+    single_grid = res if ok else None
     ok, res, log = call_logged(ctx, p, "grid2d.exception", p.f_grid_list, grid)
     if ok:
         exp = [tp, tp[:, ::-1]]
         ctx.check(isinstance(res, list) and len(res) == 2 and all(wrapped_2d(aa, q, aa.Grid2D, m, scales, origin, e) for q, e in zip(res, exp)),
                   "grid2d.list.wrapped", method="f_grid_list", expected=exp, got=lambda: [_np(q) for q in res] if isinstance(res, list) else None, **W)
+        # "wrapped element by element": every element is wrapped the way the single result is - including the over sampling scheme
+        # the result grid carries on from the input grid
+        if isinstance(res, list) and isinstance(single_grid, aa.Grid2D) and all(isinstance(q, aa.Grid2D) for q in res):
+            ctx.check(all(q.over_sampling is single_grid.over_sampling for q in res), "grid2d.list.wrapped_like_single", method="f_grid_list",
+                      input_scheme=repr(grid.over_sampling)[:80], single_result_scheme=repr(single_grid.over_sampling)[:80],
+                      element_schemes=[repr(q.over_sampling)[:80] for q in res], **W)
     # to_vector_yx
     ok, res, log = call_logged(ctx, p, "grid2d.exception", p.f_vector, grid)
     if ok:
@@ -726,8 +759,8 @@ def check_grid1d(ctx, i):
     L = int(r.integers(1, 13))
     ps = float(np.exp(r.uniform(np.log(0.05), np.log(5.0))))
     org = 0.0 if r.random() < 0.3 else float(r.normal() * 2 * ps)
-    kind = ("uniform", "masked", "values", "masked_values")[i % 4]
-    if kind in ("masked", "masked_values"):
+    kind = ("uniform", "masked", "values", "masked_values", "masked_values_stored_native")[i % 5]
+    if kind in ("masked", "masked_values", "masked_values_stored_native"):
         m1 = r.random(L) < 0.4
         if m1.all():
             m1[int(r.integers(L))] = False
@@ -738,6 +771,9 @@ def check_grid1d(ctx, i):
         grid = aa.Grid1D.uniform(shape_native=(L,), pixel_scales=ps, origin=(org,))
     elif kind == "masked":
         grid = aa.Grid1D.from_mask(mask=mask1)
+    elif kind == "masked_values_stored_native":
+        nat1 = r.normal(size=L) * 3 * ps
+        grid = aa.Grid1D(values=nat1.copy(), mask=mask1, store_native=True) if i % 2 else aa.Grid1D(values=nat1[~m1].copy(), mask=mask1).native
     else:
         grid = aa.Grid1D(values=(r.normal(size=int((~m1).sum())) * 3 * ps), mask=mask1)
     x = np.array(_np(grid.slim), dtype=float).reshape(-1)
